@@ -45,6 +45,8 @@ def check(ctx):
     jobs += [("sv", deep(14, 1)), ("sv", deep(15, 2)), ("sv", deep(17, 3)), ("sv", deep(20, 4)), ("sv", deep(16, 5, 15)),
              ("sv", "module e; wire [7:0] v; assign v = {{{{{{{{{{{{{{8'd1}}}}}}}}}}}}}}; endmodule\n"),
              ("sv", "module f; wire v; assign v = a[b[c[d[e[f[g[h[i[j[k[l[m[n[0]]]]]]]]]]]]]]; endmodule\n")]
+    # include chains 40 deep through files shared by all threads (whatever is held per open file is held 40 times per call)
+    jobs += [("pp", '`include "ch1.svh"\nafter_chain\n'), ("sv", 'module ic;\n`include "ch1.svh"\nendmodule\n')]
     jobs += r.sample(pool, 6 if q else 60)
     for _ in range(3 if q else 30):
         g = ppgen.Gen(r, includes=False)
@@ -54,11 +56,17 @@ def check(ctx):
         c = Case("t%d" % n)
         c.add("file", hx("da/cfg.svh"), hx("`define WIDTH 8\n"))
         c.add("file", hx("db/cfg.svh"), hx("`define WIDTH 16\n"))
+        for j in range(1, 41):
+            c.add("file", hx("ch%d.svh" % j), hx("wire chain_%d;\n" % j + ('`include "ch%d.svh"\n' % (j + 1) if j < 40 else "")))
         for k, s in jobs:
             c.add("job", k, hx(s))
         c.add("threads", n, 2 if q else 12)
         cases.append(c)
-    impl = run_harness("threads", cases, "c19", timeout=1800)
+    # one process per thread count, each with a limit far above what the jobs take: a call that never comes back (threads waiting
+    # for one another) ends the process, which is a result no call has alone
+    impl = {}
+    for c in cases:
+        impl.update(run_harness("threads", [c], "c19", timeout=(150 if q else 1500)))
     bad = None
     for c in cases:
         lines = impl.get(c.id) or []
